@@ -104,19 +104,83 @@ fn main() {
     }
     run.extra.insert("regress_cases_replayed".into(), regress.into());
 
+    // RSV_ONLY_PART=<name>: debugging aid, runs a single part (evidence then covers only that part)
+    let only = std::env::var("RSV_ONLY_PART").ok();
     for part in &parts {
         if run.failed() {
             break;
         }
+        if let Some(o) = &only {
+            if part.name() != o {
+                continue;
+            }
+        }
         part.run(&mut run);
     }
+    // thorough tier of C06 / C12: the same cases in a second build with wrapping arithmetic and
+    // without debug assertions (what `cargo build --release` gives users), DESIGN.md 2.2
+    if tier == Tier::Thorough && (def.id == "C06" || def.id == "C12") && std::env::var("RSV_CHILD").is_err() && !run.failed() {
+        wrap_profile(&mut run);
+    }
     // thorough tier: coverage-guided deepening with the same oracles (DESIGN.md 2.7)
-    if tier == Tier::Thorough && std::env::var("RSV_NO_FUZZ").is_err() {
+    if tier == Tier::Thorough && std::env::var("RSV_NO_FUZZ").is_err() && std::env::var("RSV_CHILD").is_err() {
         for (target, runs) in rsv::fuzz::targets_for(def.id) {
             rsv::fuzz::campaign(&mut run, target, runs);
         }
     }
     std::process::exit(run.finish());
+}
+
+fn wrap_profile(run: &mut Run) {
+    use std::process::Command;
+    let Ok(exe) = std::env::current_exe() else { return };
+    let Some(harness) = exe.parent().and_then(|p| p.parent()).and_then(|p| p.parent()) else { return };
+    let build = Command::new("cargo")
+        .args(["build", "--profile", "wrap", "-p", "rsv", "--offline"])
+        .env("CARGO_NET_OFFLINE", "true")
+        .current_dir(harness)
+        .output();
+    let bin = harness.join("target/wrap/rsv");
+    if !matches!(&build, Ok(o) if o.status.success()) || !bin.exists() {
+        run.extra.insert("wrap_profile".into(), "unavailable: build failed".into());
+        return;
+    }
+    let out = Command::new(&bin)
+        .arg(run.id)
+        .arg("thorough")
+        .env("RSV_CHILD", "1")
+        .env("RSV_NO_FUZZ", "1")
+        .env("RSV_SCALE", format!("{}", run.scale * 0.25))
+        .env("VERIF_SEED", format!("{}", run.seed))
+        .output();
+    let Ok(out) = out else {
+        run.extra.insert("wrap_profile".into(), "unavailable: cannot run".into());
+        return;
+    };
+    let text = String::from_utf8_lossy(&out.stdout).to_string();
+    let mut evals = 0u64;
+    for l in text.lines() {
+        if let Some(i) = l.find("evaluations=") {
+            evals = l[i + 12..].split_whitespace().next().and_then(|v| v.parse().ok()).unwrap_or(0);
+        }
+    }
+    run.stats.evaluations += evals;
+    *run.stats.counters.entry("wrap_profile/evaluations".into()).or_insert(0) += evals;
+    run.extra.insert("wrap_profile".into(), serde_json::json!({"status": "ran", "evaluations": evals, "exit": out.status.code()}));
+    match out.status.code() {
+        Some(0) => {}
+        Some(1) => {
+            let path = text.lines().find(|l| l.starts_with("VIOLATION")).and_then(|l| l.split("replay=").nth(1)).unwrap_or("").trim().to_string();
+            let msg = text.lines().find(|l| l.trim_start().starts_with("part=")).unwrap_or("").trim().to_string();
+            run.failures.push(rsv::runner::Failure {
+                part: "wrap-profile".into(),
+                case: Value::Null,
+                message: format!("in the build with wrapping arithmetic and without debug assertions: {msg}"),
+                replay_path: Some(path),
+            });
+        }
+        _ => run.inconclusive.push("wrap-profile child ended abnormally".into()),
+    }
 }
 
 /// 0 = passes, 1 = still fails, 2 = unusable file
